@@ -34,41 +34,21 @@ class ProtoCfg(ReaderCfg):
 
 
 def descriptor_fields(P):
-    """Fields of Inotify that hold descriptors: assigned from inotify_init() / os.pipe() in __init__."""
+    """Fields of Inotify that hold descriptors: on the paths of __init__ (helpers inlined), the fields stored with a value that is
+    the result of inotify_init() or a component of os.pipe()."""
     init = P.find_method("Inotify", "__init__")
     if init is None:
         raise AnalysisError("anchor vanished: Inotify.__init__")
     fields = {}
-    local_from = {}
-    assigns = [n for n in ast.walk(init.node) if isinstance(n, ast.Assign)]
-    for n in assigns:
-        if isinstance(n.value, ast.Call):
-            f = dotted(n.value.func) or ""
-            if f == "inotify_init" or f == "os.pipe":
-                for t in n.targets:
-                    elts = t.elts if isinstance(t, ast.Tuple) else [t]
-                    for x in elts:
-                        d = dotted(x)
-                        if d and d.startswith("self."):
-                            fields[d.split(".")[1]] = f
-                        elif d:
-                            local_from[d] = f
-    # copies through locals (any number of hops): x = y / a, b = y
-    changed = True
-    while changed:
-        changed = False
-        for n in assigns:
-            if isinstance(n.value, ast.Name) and n.value.id in local_from:
-                for t in n.targets:
-                    elts = t.elts if isinstance(t, ast.Tuple) else [t]
-                    for x in elts:
-                        d = dotted(x)
-                        if d and d.startswith("self.") and d.split(".")[1] not in fields:
-                            fields[d.split(".")[1]] = local_from[n.value.id]
-                            changed = True
-                        elif d and not d.startswith("self.") and d not in local_from:
-                            local_from[d] = local_from[n.value.id]
-                            changed = True
+    for p in Enumerator(ProtoCfg(P)).run(init):
+        for e in p.evs:
+            if e.kind != "store" or e.extra.get("recv") != "self":
+                continue
+            v = e.extra.get("value") or ""
+            if v == "inotify_init()":
+                fields[e.extra["attr"]] = "inotify_init"
+            elif re.fullmatch(r"os\.pipe\(\)\[[01]\]", v):
+                fields[e.extra["attr"]] = "os.pipe"
     if len(fields) < 3:
         raise AnalysisError(f"descriptor fields of Inotify not recognised: {fields}")
     return fields, init
